@@ -310,6 +310,9 @@ def compare_trees(code, spec, leaf_eq, alias=None, assume=None, int_subjects=Non
         for key, reg in val.items():
             if key[0] == "pair" and reg == "eq":
                 m[key[1][0]] = key[1][1]
+            elif key[0] == "subj" and reg == ("v", ("c", "NoneType", None)):
+                # on a path where x is None, x is the constant None
+                m[key[1]] = ("const", "NoneType", None)
             elif key[0] == "subj" and reg[0] == "n":
                 consts = {c[2] for c in space.subj_consts.get(key[1], ()) if c[0] == "c" and c[1] in ("int", "float")}
                 if any(float(reg[1]) == float(c) for c in consts if c not in (float("inf"), float("-inf"))):
